@@ -140,6 +140,7 @@ class P(Property):
                             polls = {i for i in range(-1, len(chunks)) if rng.random() < 0.6}
                             out.append('wt.recv %s %d 0 1 0 %s %s' % (kind, s, rng.choice(base_modes + (['sd', 'sr2', 'st8'] if kind == 'bi' else [])), hist(chunks, rng.choice(endings), polls)))
         out += self.cross_cases(tier, rng)
+        out += self.keep_cases(rng, tier)
         out += self.other_session_cases(rng)
         out += self.two_stream_cases(tier, rng)
         out += self.seg_and_size_cases(tier, rng)
@@ -308,6 +309,24 @@ class P(Property):
                                 its.append('p')
                         en = 0 if rng.random() < 0.15 else 1
                         out.append('wt.recv2 8 %d %s %s' % (en, rng.choice(modes), ','.join(its) or '-'))
+        return out
+
+    @staticmethod
+    def keep_cases(rng, tier):
+        """tokio AsyncRead polled with a partly filled ReadBuf (mode x<k>, what read_exact does): a delivery longer than
+        the space left in the buffer has to be kept by h3 for the following read"""
+        out = []
+        for kind, sig in (('uni', 0x54), ('bi', 0x41)):
+            for s in (0, 8, 4 * 2 ** 14):
+                hdr = vi(sig) + vi(s)
+                for first, second in ((b'abc', b'0123456789'), (b'', b'0123456789'), (b'a', b'xy'), (b'abcdefg', b'0123456789' * 7), (b'ab', b'c'),
+                                      (bytes(rng.getrandbits(8) for _ in range(rng.randint(1, 9))), bytes(rng.getrandbits(8) for _ in range(rng.randint(1, 40))))):
+                    for k in (3, 8, 64):
+                        for ending in ('F', ''):
+                            for chunks in ([hdr + first, second], [hdr, first, second] if first else [hdr, second], [hdr + first + second]):
+                                for mode in ['x%d' % k] + (['sx%d' % k] if kind == 'bi' else []):
+                                    for polls in (set(), set(range(-1, len(chunks)))):
+                                        out.append('wt.recv %s %d 0 1 0 %s %s' % (kind, s, mode, hist(chunks, ending, polls)))
         return out
 
     def cases(self, tier, rng):
